@@ -173,7 +173,7 @@ func c47GenStorage(r *c47Rand, n int, hostile bool) *c47Storage {
 		for _, k := range st.keys {
 			seen[k] = true
 		}
-		for _, k := range c47Cluster(r, 8+r.intn(33), 10+r.intn(5)) {
+		for _, k := range c47Cluster(r, 8+r.intn(33), 11+r.intn(5)) {
 			if !seen[k] {
 				st.keys = append(st.keys, k)
 			}
@@ -509,6 +509,7 @@ type c47Run struct {
 	// the cycle is interrupted when a slow peer (c47Peer.holds) has seen the later chunks
 	// progress while it sits on an earlier one
 	holdCancel bool
+	multiReqs, held, heldReached, heldCancel atomic.Int64 // statistics
 	cancelOnce sync.Once
 	cancel     chan struct{}
 }
@@ -701,12 +702,18 @@ func (p *c47Peer) onStorage(id uint64, root common.Hash, accounts []common.Hash,
 	}
 	bh := p.next(kSto)
 	p.perturb(bh)
+	if chunkReq && !bytes.Equal(limit, common.MaxHash[:]) {
+		p.run.multiReqs.Add(1)
+	}
 	if chunkReq && p.holdFor > 0 && !bytes.Equal(limit, common.MaxHash[:]) && p.holds.Add(-1) >= 0 {
+		p.run.held.Add(1)
 		switch p.hold() {
 		case c47HoldCancelled:
 			return nil // the reply is never sent
 		case c47HoldReached:
+			p.run.heldReached.Add(1)
 			if p.run.holdCancel {
+				p.run.heldCancel.Add(1)
 				p.run.cancelOnce.Do(func() { close(p.run.cancel) })
 				return nil
 			}
@@ -1301,7 +1308,7 @@ func c47DrawPeers(rt *rapid.T, label string, nPeers int, bad bool, drops *int) (
 			cp.script = c47GenScript(rt, fmt.Sprintf("%s/p%d", label, i), i == 0, drops)
 			if h := rapid.SampledFrom([]int{0, 0, 1, 2, 4}).Draw(rt, fmt.Sprintf("%s/p%d/holdChunkRequests", label, i)); h > 0 && nPeers > 1 {
 				cp.holds.Store(int32(h))
-				cp.holdFor = int64(rapid.SampledFrom([]int{1, 1, 2, 3, 5, 8}).Draw(rt, fmt.Sprintf("%s/p%d/holdFor", label, i)))
+				cp.holdFor = int64(rapid.SampledFrom([]int{1, 2, 3, 5, 8, 13}).Draw(rt, fmt.Sprintf("%s/p%d/holdFor", label, i)))
 			}
 			cp.tinyFirst = rapid.IntRange(0, 3).Draw(rt, fmt.Sprintf("%s/p%d/tinyFirstStorageReply", label, i)) == 0
 		}
@@ -1562,7 +1569,7 @@ func TestVerifC47SyncV2(t *testing.T) {
 			}
 			return sy
 		}
-		run := &c47Run{state: state, cancel: make(chan struct{}), cancelAt: cancelAt, cancelChunked: cancelChunked, holdCancel: cancelChunked > 0}
+		run := &c47Run{state: state, cancel: make(chan struct{}), cancelAt: cancelAt, cancelChunked: cancelChunked, holdCancel: cancelAt+cancelChunked > 0}
 		total := run
 		sy := start("a", run)
 		report := func(format string, a ...any) {
@@ -1588,7 +1595,7 @@ func TestVerifC47SyncV2(t *testing.T) {
 			}
 		}
 		out := c47Sync(func(cc chan struct{}) error { return sy.Sync(pivot, cc) }, func() string { return c47DumpSyncerV2(sy) }, run, wdb, 6*time.Minute)
-		restarted := false
+		restarted, multiChunk, openBeforeFetched := false, false, false
 		if out.stalled {
 			stalled("first-cycle")
 			return
@@ -1599,6 +1606,9 @@ func TestVerifC47SyncV2(t *testing.T) {
 			}
 			barrier()
 			restarted = true
+			if j := c47pJournal(inner); j != nil {
+				multiChunk, openBeforeFetched = c47pChunkState(j)
+			}
 			run2 := &c47Run{state: state, cancel: make(chan struct{})}
 			sy2 := start("b", run2)
 			out = c47Sync(func(cc chan struct{}) error { return sy2.Sync(pivot, cc) }, func() string { return c47DumpSyncerV2(sy2) }, run2, wdb, 6*time.Minute)
@@ -1633,6 +1643,8 @@ func TestVerifC47SyncV2(t *testing.T) {
 		c.Classf("v2/restart=%v", restarted)
 		c.Classf("v2/rejected>0=%v", run.rejected.Load() > 0)
 		c.Classf("v2/chunked-storage=%v", run.chunked.Load() > 0)
+		c.Classf("v2/restart-with-multi-chunk-contract=%v", multiChunk)
+		c.Classf("v2/restart-with-open-chunk-before-fetched-slots=%v", openBeforeFetched)
 		c.Sample(nt, func() any {
 			return map[string]any{"protocol": "snap/2", "state": fmt.Sprintf("%+v", sh), "peers": desc, "cancelAfter": cancelAt, "cancelAfterChunkReplies": cancelChunked,
 				"served": run.served.Load(), "rejected": run.rejected.Load(), "chunkedStorageRequests": run.chunked.Load()}
